@@ -21,6 +21,7 @@ import (
 	"sort"
 	"strings"
 	"testing"
+	"time"
 
 	"github.com/go-jose/go-jose/v4"
 	"github.com/rs/zerolog"
@@ -834,6 +835,8 @@ func TestVerifC19Rules(t *testing.T) {
 	defer w.Close()
 
 	t.Setenv("C19_X", "from-env")
+
+	defer c19gen.Watchdog(t, "rules", 100*time.Second)()
 
 	env := c19Setup(t)
 	root := vf.NewRand(vf.Seed())
